@@ -111,7 +111,11 @@ func (ct *CSVTable) emitRow(w io.Writer, columnCount int, cells []tabular.Cell) 
 			return err
 		}
 	}
-	if _, err := fmt.Fprint(w, ct.csvEscape(cells[i].String())); err != nil {
+	last := ""
+	if max > 0 {
+		last = cells[i].String()
+	}
+	if _, err := fmt.Fprint(w, ct.csvEscape(last)); err != nil {
 		return err
 	}
 	i++
